@@ -1084,6 +1084,8 @@ class recording:
         orig = self.dr
 
         def default_rng(seed=None):
+            if isinstance(seed, RecGen):      # `np.random.default_rng(generator)` returns the generator itself
+                return seed
             g = RecGen(orig(seed)); self.gens.append(g); return g
         np.random.default_rng = default_rng
         return self
@@ -1169,6 +1171,721 @@ def random_corr(ctx, r, lines, checks):
                  repro=HDR + f'sets = {{frozenset(frozenset((u, v)) for u, v, _ in G.gnm_random_bqm({nn}, {mm}, "SPIN", random_state=s).iter_quadratic()) for s in range(12)}}\nassert len(sets) > 1, sets\n')
 
 
+# ------------------------------------------------------------------------------------ round 7: anti-crossing, frustrated loops, chimera anticluster, MIMO
+
+def spin_energies(c, order):
+    """energies of all 2^n spin assignments (bit i of the index = variable order[i], 0 -> -1, 1 -> +1); exact: the
+    coefficients are small dyadic rationals, evaluated in float64"""
+    lin, quad, off = c
+    n = len(order)
+    idx = {v: i for i, v in enumerate(order)}
+    ar = np.arange(1 << n, dtype=np.int64)
+    sp = [(((ar >> i) & 1) * 2 - 1).astype(np.float64) for i in range(n)]
+    e = np.full(1 << n, float(off))
+    for v, a in lin.items():
+        if a:
+            e += float(a) * sp[idx[v]]
+    for (u, v), q in quad.items():
+        if q:
+            e += float(q) * sp[idx[u]] * sp[idx[v]]
+    return e
+
+
+def ac_cases(ctx, r, lines, checks):
+    top = ctx.scale(14, 18)
+    for name in ('anti_crossing_clique', 'anti_crossing_loops'):
+        lo = 6 if name.endswith('clique') else 8
+        for n in list(range(0, 22)) + [24, 28, 32, 40]:
+            f = getattr(G, name)
+            site = 'generators.' + name
+            call = f'G.{name}({n})'
+            try:
+                b = f(n)
+            except ValueError:
+                b = None
+            ctx.tick(f'ac:{name}' + (':raises' if b is None else '')); ctx.case(('ac', name, n), nontrivial=b is not None, sample=dict(call=call))
+            # the documented argument range; for the two-loop model "number of variables" can only be met by multiples of 4
+            valid = n % 2 == 0 and n >= lo and (name.endswith('clique') or n % 4 == 0)
+            cls = 'argument validation' if (name.endswith('clique') or n % 4 == 0 or n % 2 or n < lo) else 'num_variables not a multiple of 4'
+            if (b is None) == valid:
+                what = (f'{call}: ' + ('refused' if b is None else f'accepted; the model has {b.num_variables} variables {sorted(b.variables)!r}, not {n}'))
+                ctx.fail('property', site, cls, what,
+                         repro=HDR + f'try:\n    b = {call}\nexcept ValueError:\n    b = None\n'
+                         + (f'assert b is not None and b.num_variables == {n}\n' if valid else f'assert b is None, "accepted with %d variables, {n} requested" % b.num_variables\n'))
+                if b is None:
+                    continue
+            if b is None:
+                lines.append(f"{'acclique' if name.endswith('clique') else 'acloops'} {n}")
+                checks.append((site + ' vs Gen.acClique/acLoops', 'refusal', 'err', HDR + f'{call}\n', False))
+                continue
+            c = coef(b)
+            lin, quad, off = c
+            bad = False
+            src = HDR + f'b = {call}; n = {n}\n'
+            if name.endswith('clique'):
+                N = n // 2
+                want_lin = {v: F(1 if v < N and v != 1 else 0 if v == 1 else -1) for v in range(n)}
+                want_quad = {frozenset((u, v)): F(-1) for u in range(N) for v in range(u + 1, N)}
+                want_quad.update({frozenset((v, v + N)): F(-1) for v in range(N)})
+                got_quad = {frozenset(k): q for k, q in quad.items()}
+                if b.vartype is not dimod.SPIN or lin != want_lin or got_quad != want_quad or off != 0 or len(got_quad) != len(quad):
+                    bad = True
+                    ctx.fail('property', site, 'documented biases', f'{call}: linear {lin} quadratic {quad} offset {off}; documented: ferromagnetic clique on [0, N), '
+                             f'v ~ v+N ferromagnetic, +1 on the clique except variable 1, -1 on the attached variables',
+                             repro=src + 'N = n // 2\nassert b.vartype is dimod.SPIN and b.offset == 0\n'
+                             'assert {v: b.get_linear(v) for v in b.variables} == {v: (1 if v < N and v != 1 else 0 if v == 1 else -1) for v in range(n)}\n'
+                             'assert {frozenset((u, v)): q for u, v, q in b.iter_quadratic()} == {**{frozenset((u, v)): -1 for u in range(N) for v in range(u + 1, N)}, **{frozenset((v, v + N)): -1 for v in range(N)}}\n')
+            else:
+                if b.vartype is not dimod.SPIN or sorted(b.variables) != list(range(b.num_variables)) or off != 0 or any(q != -1 for q in quad.values()):
+                    bad = True
+                    ctx.fail('property', site, 'variables / ferromagnetic couplers', f'{call}: variables {sorted(b.variables)!r} quadratic {quad} offset {off}',
+                             repro=src + 'assert b.vartype is dimod.SPIN and sorted(b.variables) == list(range(b.num_variables)) and b.offset == 0 and all(q == -1 for q in b.quadratic.values())\n')
+            # "The ground state of this problem is therefore +1 for all variables" / "a unique ground state of all +1s": enumeration
+            if not bad and b.num_variables <= top:
+                order = sorted(b.variables)
+                e = spin_energies(c, order)
+                allp = (1 << len(order)) - 1
+                mn = e.min()
+                if e[allp] != mn or int((e == mn).sum()) != 1:
+                    w = int(np.argmin(e))
+                    ctx.fail('property', site, 'ground state', f'{call}: all +1 has energy {e[allp]}, the minimum is {mn} (e.g. at spins {[(w >> i & 1) * 2 - 1 for i in range(len(order))]}), attained {int((e == mn).sum())} times',
+                             repro=src + 'ss = dimod.ExactSolver().sample(b); lowest = ss.lowest()\nassert len(lowest) == 1 and all(v == 1 for v in lowest.first.sample.values()), lowest\n')
+                    bad = True
+                elif name.endswith('loops'):
+                    # "a degenerate first excited state, centered at all -1s"
+                    lv = np.unique(e)
+                    first = e == lv[1]
+                    if not first[0] or int(first.sum()) < 2:
+                        bad = True
+                        ctx.fail('property', site, 'first excited state', f'{call}: the first excited level {lv[1]} has {int(first.sum())} states, all -1 has energy {e[0]}; documented: degenerate, centred at all -1',
+                                 repro=src + 'ss = dimod.ExactSolver().sample(b); es = sorted(set(ss.record.energy))\nassert b.energy({v: -1 for v in b.variables}) == es[1] and (ss.record.energy == es[1]).sum() > 1\n')
+                ctx.tick(f'ac:{name}:ground-state-enumerated')
+            lines.append(f"{'acclique' if name.endswith('clique') else 'acloops'} {n}")
+            checks.append((site + ' vs Gen.acClique/acLoops', 'coefficients', 'ok ' + canon_bqm(b), src + 'print(b)\n', bad))
+
+
+def fl_cases(ctx, r, lines, checks):
+    import dimod.generators.fcl as fcl
+    pool = ['a', 'b', 'c', 'd', 'e', 0, 1, 2, 3, ('t', 1)]
+    for rep in range(ctx.scale(40, 800)):
+        n = r.randint(3, 7)
+        as_int = r.random() < .3
+        nodes = list(range(n)) if as_int else r.sample(pool, n)
+        if as_int:
+            graph, edges = n, list(itertools.combinations(range(n), 2))
+        else:
+            edges = [(u, v) if r.random() < .5 else (v, u) for u, v in itertools.combinations(nodes, 2) if r.random() < .7]
+            graph = (nodes, edges)
+        num_cycles = r.randint(1, 4)
+        R = r.choice([float('inf'), float('inf'), 1, 2, 3])
+        plant = r.random() < .7
+        seed = r.choice([0, 1, r.randrange(2 ** 31)])
+        gauge = {v: r.choice([-1, 1]) for v in nodes} if r.random() < .25 else None
+        short = r.random() < .2
+        preds = (lambda c: len(c) <= 4,) if short else ()
+        mal = r.random() < .06
+        if mal:
+            which = r.choice(['num_cycles', 'R', 'max_failed_cycles'])
+        kw = dict(R=R, plant_solution=plant, seed=seed, cycle_predicates=preds)
+        if gauge is not None:
+            kw['planted_solution'] = gauge
+        if mal:
+            if which == 'num_cycles':
+                num_cycles = r.choice([0, -1])
+            else:
+                kw[which] = r.choice([0, -2])
+        site = 'generators.frustrated_loop'
+        kwsrc = ', '.join(f'{k}={("(lambda c: len(c) <= 4,)" if v else "()") if k == "cycle_predicates" else repr(v) if v != float("inf") else "float(\"inf\")"}' for k, v in kw.items())
+        call = f'G.frustrated_loop({graph!r}, {num_cycles}, {kwsrc})'
+        rec_cycles = []
+        orig = fcl._random_cycle
+
+        def wrapped(adj, rs):
+            cyc = orig(adj, rs)
+            rec_cycles.append((None if cyc is None else list(cyc), len(rs.log)))
+            return cyc
+        out = err = None
+        try:
+            fcl._random_cycle = wrapped
+            with warnings.catch_warnings():
+                warnings.simplefilter('ignore')
+                with recording() as rec:
+                    out = G.frustrated_loop(graph, num_cycles, **kw)
+                log = rec.stream()
+        except (ValueError, RuntimeError) as e:
+            err = e
+        finally:
+            fcl._random_cycle = orig
+        ctx.tick('fl' + (':plant' if plant else ':unplanted') + (':gauge' if gauge else '') + (':R' if R != float('inf') else '') + (':predicate' if short else '')
+                 + (f':raises-{type(err).__name__}' if err else ''))
+        ctx.case(('fl', call), nontrivial=out is not None, sample=dict(call=call))
+        pre = HDR + 'import warnings; warnings.simplefilter("ignore")\n'
+        if mal or isinstance(err, ValueError):
+            if not (mal and isinstance(err, ValueError)):
+                ctx.fail('property', site, 'argument validation', f'{call}: ' + (f'refused: {err}' if err else 'accepted'),
+                         repro=pre + f'try:\n    {call}\n    ok = True\nexcept ValueError:\n    ok = False\nassert ok == {not mal}\n')
+            continue
+        good = [(c, pos) for c, pos in rec_cycles if c is not None and all(p(c) for p in preds)]
+        if err is not None:
+            # RuntimeError is the documented outcome only when fewer good cycles than requested were found within max_failed_cycles failures
+            if len(good) >= num_cycles or len(rec_cycles) - len(good) < 100:
+                ctx.fail('property', site, 'raises', f'{call}: {err} although {len(good)} good cycles were drawn ({len(rec_cycles) - len(good)} failures)', repro=pre + call + '\n')
+            continue
+        b = out
+        lin, quad, off = coef(b)
+        adjset = {frozenset(e) for e in edges}
+        bad = False
+
+        def fail(cls, what, repro_tail):
+            nonlocal bad
+            bad = True
+            ctx.fail('property', site, cls, f'{call}: {what}', repro=pre + f'b = {call}\n' + repro_tail)
+        # the recorded loops: simple cycles of the graph, as many as requested
+        cyc_ok = all(len(c) >= 3 and len(set(c)) == len(c) and all(frozenset((c[i - 1], c[i])) in adjset for i in range(len(c))) for c, _ in good)
+        idxs = [log[pos] if plant else None for _, pos in good]
+        if len(good) != num_cycles or not cyc_ok or (plant and any(not 0 <= i < len(c) for (c, _), i in zip(good, idxs))):
+            fail('loops', f'the walk returned {[c for c, _ in good]!r} (draws {idxs}): not {num_cycles} simple cycles of the graph', 'assert False, "see the recorded cycles"\n')
+            continue
+        want = {}
+        for (c, _), i in zip(good, idxs):
+            L = len(c)
+            afm = (c[i - 1], c[i]) if plant else (c[-1], c[0])       # exactly one anti-ferromagnetic coupler per loop
+            for k in range(L):
+                e = frozenset((c[k - 1], c[k]))
+                want[e] = want.get(e, 0) + (1 if e == frozenset(afm) else -1)
+        if gauge is not None:
+            want = {e: q * gauge[tuple(e)[0]] * gauge[tuple(e)[1]] for e, q in want.items()}
+        got = {frozenset(k): q for k, q in quad.items()}
+        bound = -sum(len(c) - 2 for c, _ in good)
+        if (b.vartype is not dimod.SPIN or set(b.variables) != set(nodes) or len(b.variables) != len(nodes) or any(lin.values()) or off != 0 or set(got) != adjset
+                or any(got[e] != want.get(e, 0) for e in got)):
+            fail('sum of frustrated loops', f'loops {[c for c, _ in good]!r} with anti-ferromagnetic positions {idxs}: couplings {quad}, expected {want}',
+                 'assert False, "couplings are not the sum of the drawn loops with one AFM edge each"\n')
+        elif R != float('inf') and any(abs(q) > R for q in got.values()):
+            fail('R', f'an interaction exceeds R={R}: {quad}', f'assert all(abs(q) <= {R} for q in b.quadratic.values())\n')
+        else:
+            e = spin_energies((lin, quad, off), nodes)
+            state = gauge or {v: 1 for v in nodes}
+            ip = sum(1 << k for k, v in enumerate(nodes) if state[v] == 1)
+            # every loop is frustrated: no state is below -(L-2) per loop; with a planted solution that state attains it
+            if e.min() < bound or (plant and (e[ip] != bound or e[ip] != e.min())):
+                fail('planted ground state', f'loops {[c for c, _ in good]!r}: minimum energy {e.min()}, planted state {e[ip]}, -sum(L-2) = {bound}',
+                     f'ss = dimod.ExactSolver().sample(b)\nstate = {state!r}\nassert b.energy(state) == ss.first.energy\n')
+        ctxt = ';'.join(','.join(lab(v) for v in c) + '@' + ('-' if i is None else str(i)) for (c, _), i in zip(good, idxs)) or '-'
+        lines.append(f"fl {','.join(lab(v) for v in nodes)} {','.join(f'{lab(u)}~{lab(v)}' for u, v in edges) or '-'} {ctxt} "
+                     + ('-' if gauge is None else ','.join(f'{lab(v)}={s}' for v, s in gauge.items())))
+        checks.append((site + ' vs Gen.frustratedLoop (loops drawn: recorded)', 'interactions of the drawn loops', 'ok ' + canon_bqm(b), pre + f'print({call})\n', bad))
+
+
+def chimera_lattice(m, n, t):
+    """Chimera(m, n, t) from its definition: node ((i, j), u, k) has index ((i*n + j)*2 + u)*t + k; inside a tile every
+    shore-0 node meets every shore-1 node; shore-0 nodes continue vertically, shore-1 nodes horizontally"""
+    ix = lambda i, j, u, k: ((i * n + j) * 2 + u) * t + k   # noqa: E731
+    tile = {frozenset((ix(i, j, 0, a), ix(i, j, 1, b))) for i in range(m) for j in range(n) for a in range(t) for b in range(t)}
+    inter = {frozenset((ix(i, j, 0, k), ix(i + 1, j, 0, k))) for i in range(m - 1) for j in range(n) for k in range(t)}
+    inter |= {frozenset((ix(i, j, 1, k), ix(i, j + 1, 1, k))) for i in range(m) for j in range(n - 1) for k in range(t)}
+    return tile, inter
+
+
+def chimera_cases(ctx, r, lines, checks):
+    from dimod.generators.chimera import chimera_anticluster
+    for rep in range(ctx.scale(40, 700)):
+        m = r.randint(0, 3); n = r.choice([None, r.randint(0, 3)]); t = r.choice([0, 1, 2, 2, 3, 4])
+        nn = m if n is None else n
+        if m * nn * t * 2 > 48:
+            t = 1
+        mult = r.choice([F(3), F(3), F(2), F(1, 2), F(-3, 2), F(1)])
+        seed = r.choice([0, 1, r.randrange(2 ** 31)])
+        tile, inter = chimera_lattice(m, nn, t)
+        alle = sorted(map(sorted, tile | inter))
+        sub = None; mal = None
+        k = r.random()
+        if k < .45 and m * nn * t:
+            nodes = [v for v in range(m * nn * t * 2) if r.random() < .7]; r.shuffle(nodes)
+            edges = [tuple(e) if r.random() < .5 else (e[1], e[0]) for e in alle if e[0] in nodes and e[1] in nodes and r.random() < .7]
+            kk = r.random()
+            if kk < .12:
+                nodes.append(m * nn * t * 2 + r.randint(0, 3)); mal = 'subgraph node outside the lattice'
+            elif kk < .24 and len(nodes) >= 2:
+                cand = [(u, v) for u, v in itertools.combinations(sorted(nodes), 2) if frozenset((u, v)) not in tile | inter]
+                if cand:
+                    edges.append(r.choice(cand)); mal = 'subgraph edge outside the lattice'
+            sub = (nodes, edges)
+        args = f'{m}, {n}, {t}, multiplier={float(mult)!r}, subgraph={sub!r}, seed={seed}'
+        call = f'chimera_anticluster({args})'
+        site = 'generators.chimera_anticluster'
+        pre = HDR + 'from dimod.generators.chimera import chimera_anticluster\n'
+        err = None
+        try:
+            with warnings.catch_warnings():
+                warnings.simplefilter('ignore')
+                with recording() as rec:
+                    b = chimera_anticluster(m, n, t, multiplier=float(mult), subgraph=sub, seed=seed)
+                log = rec.stream()
+        except ValueError as e:
+            b, err, log = None, e, None
+        ctx.tick('chimera' + (':subgraph' if sub else '') + (':raises' if b is None else '') + (':' + mal if mal else ''))
+        ctx.case(('chimera', call), nontrivial=b is not None and bool(tile), sample=dict(call=call))
+        if (b is None) != (mal is not None):
+            ctx.fail('property', site, mal or 'valid arguments', f'{call}: ' + (f'refused: {err}' if b is None else 'accepted'),
+                     repro=pre + f'try:\n    {call}\n    ok = True\nexcept ValueError:\n    ok = False\nassert ok == {mal is None}\n')
+            continue
+        if b is None:
+            # (the draws happen before the refusal: take them from a run without subgraph)
+            with recording() as rec:
+                chimera_anticluster(m, n, t, multiplier=float(mult), seed=seed)
+            log = rec.stream()
+        bad = False
+        if b is not None:
+            lin, quad, off = coef(b)
+            got = {frozenset(kk_): q for kk_, q in quad.items()}
+            want_nodes = list(range(m * nn * t * 2)) if sub is None else sub[0]
+            want_edges = (tile | inter) if sub is None else {frozenset(e) for e in sub[1]}
+            with warnings.catch_warnings():
+                warnings.simplefilter('ignore')
+                full = chimera_anticluster(m, n, t, multiplier=float(mult), seed=seed)
+            fq = {frozenset((u, v)): fr(q) for u, v, q in full.iter_quadratic()}
+            if (b.vartype is not dimod.SPIN or list(b.variables) != want_nodes or any(lin.values()) or off != 0 or set(got) != want_edges
+                    or any((abs(q) != 1) if e in tile else (q not in (mult, -mult)) for e, q in got.items()) or any(got[e] != fq[e] for e in got)
+                    or len(log) != len(tile | inter) or any(x not in (0, 1) for x in log)):
+                bad = True
+                ctx.fail('property', site, 'anticluster structure', f'{call}: variables {list(b.variables)!r} couplings {quad}; documented: +-1 inside a tile, +-multiplier between tiles, '
+                         f'exactly the edges of Chimera({m}, {nn}, {t})' + (' restricted to the subgraph, with the couplings of the full lattice for this seed' if sub else ''),
+                         repro=pre + f'b = {call}\nm, n, t, mult = {m}, {nn}, {t}, {float(mult)!r}\n'
+                         'ix = lambda i, j, u, k: ((i*n + j)*2 + u)*t + k\n'
+                         'tile = {frozenset((ix(i, j, 0, a), ix(i, j, 1, c))) for i in range(m) for j in range(n) for a in range(t) for c in range(t)}\n'
+                         'inter = {frozenset((ix(i, j, 0, k), ix(i+1, j, 0, k))) for i in range(m-1) for j in range(n) for k in range(t)} | {frozenset((ix(i, j, 1, k), ix(i, j+1, 1, k))) for i in range(m) for j in range(n-1) for k in range(t)}\n'
+                         f'sub = {sub!r}\n'
+                         'got = {frozenset((u, v)): q for u, v, q in b.iter_quadratic()}\n'
+                         'assert set(got) == ((tile | inter) if sub is None else {frozenset(e) for e in sub[1]})\n'
+                         'assert all(abs(q) == 1 if e in tile else abs(q) == abs(mult) for e, q in got.items()) and not any(b.linear.values()) and b.offset == 0\n')
+        lines.append(f"chim {m} {nn} {t} {rat(mult)} " + ('none -' if sub is None else f"{','.join(lab(v) for v in sub[0]) or '-'} {','.join(f'{lab(u)}~{lab(v)}' for u, v in sub[1]) or '-'}")
+                     + ' ' + (','.join(str(int(x)) for x in log) or '-'))
+        checks.append((site + ' vs Gen.chimeraAnticluster (draws recorded)', 'placement of the draws' if b is not None else 'refusal', 'err' if b is None else 'ok ' + canon_bqm(b), pre + f'print({call})\n', bad))
+
+
+def mimo_cases(ctx, r, lines, checks):
+    from dimod.generators.wireless import mimo
+    site = 'generators.mimo'
+    pre = HDR + 'from dimod.generators.wireless import mimo\n'
+    for rep in range(ctx.scale(40, 700)):
+        nt = r.randint(1, 5); nr = r.randint(1, 4)
+        if r.random() < .55:
+            # given (y, F), real, BPSK: energy == ||y - F s||^2 at every spin vector
+            Fm = [[F(r.randint(-8, 8), r.choice([1, 1, 2, 4])) for _ in range(nt)] for _ in range(nr)]
+            y = [F(r.randint(-12, 12), r.choice([1, 2, 4])) for _ in range(nr)]
+            mal = r.random() < .08
+            if mal:
+                y = y + [F(1)]
+            as_col = r.random() < .5
+            ysrc = f'np.array({[[float(v)] for v in y]!r})' if as_col else f'np.array({[float(v) for v in y]!r})'
+            call = f'mimo("BPSK", {ysrc}, np.array({[[float(v) for v in row] for row in Fm]!r}))'
+            try:
+                with warnings.catch_warnings():
+                    warnings.simplefilter('ignore')
+                    b = eval(call, {'mimo': mimo, 'np': np})
+            except ValueError:
+                b = None
+            ctx.tick('mimo:given' + (':raises' if b is None else '')); ctx.case(('mimo', call), nontrivial=b is not None, sample=dict(call=call))
+            if (b is None) != mal:
+                ctx.fail('property', site, 'shape mismatch' if mal else 'valid arguments', f'{call}: ' + ('refused' if b is None else 'accepted'),
+                         repro=pre + f'try:\n    {call}\n    ok = True\nexcept ValueError:\n    ok = False\nassert ok == {not mal}\n')
+                continue
+            src = (pre + f'b = {call}\ny = {[str(v) for v in y]!r}; Fm = {[[str(v) for v in row] for row in Fm]!r}\nc = coef(b)\n'
+                   'for s in itertools.product((-1, 1), repeat=len(Fm[0])):\n'
+                   '    want = sum((F(y[k]) - sum(F(Fm[k][i]) * s[i] for i in range(len(s))))**2 for k in range(len(Fm)))\n'
+                   '    assert en(c, dict(enumerate(s))) == want, (s, en(c, dict(enumerate(s))), want)\n')
+            bad = False
+            if b is not None:
+                c = coef(b)
+                if b.vartype is not dimod.SPIN or list(b.variables) != list(range(nt)):
+                    bad = True
+                    ctx.fail('property', site, 'variables', f'{call}: {b.vartype.name} {list(b.variables)!r}', repro=src)
+                for s in itertools.product((-1, 1), repeat=nt) if not bad else ():
+                    want = sum((y[k] - sum(Fm[k][i] * s[i] for i in range(nt))) ** 2 for k in range(nr))
+                    got = energy(c, dict(enumerate(s)))
+                    if got != want:
+                        bad = True
+                        ctx.fail('property', site, 'BPSK, real channel: energy vs ||y - F v||^2', f'{call}: at {s} energy {got}, ||y - F s||^2 = {want}', repro=src)
+                        break
+            lines.append(f"mimo {nt} {','.join(map(rat, y))} {';'.join(','.join(map(rat, row)) for row in Fm)}")
+            checks.append((site + ' vs Gen.mimoBpsk', 'given y and F', 'err' if b is None else 'ok ' + canon_bqm(b), src, bad))
+        else:
+            seed = r.choice([0, 1, r.randrange(2 ** 31)])
+            call = f'mimo("BPSK", num_transmitters={nt}, num_receivers={nr}, F_distribution=("binary", "real"), seed={seed})'
+            with warnings.catch_warnings():
+                warnings.simplefilter('ignore')
+                with recording() as rec:
+                    b = eval(call, {'mimo': mimo, 'np': np})
+                log = rec.stream()
+            ctx.tick('mimo:binary-channel'); ctx.case(('mimo', call), nontrivial=True, sample=dict(call=call))
+            c = coef(b)
+            bad = False
+            src = pre + f'b = {call}\nlowest = dimod.ExactSolver().sample(b).first.energy\nassert lowest == 0, lowest   # no noise: the transmitted symbols have ||y - F v||^2 = 0\n'
+            if len(log) != nr * nt + nt or any(x not in (0, 1) for x in log[:nr * nt]) or any(log[nr * nt:]) or b.vartype is not dimod.SPIN or list(b.variables) != list(range(nt)):
+                bad = True
+                ctx.fail('property', site, 'draws', f'{call}: recorded draws {log!r}, variables {list(b.variables)!r}', repro=src)
+            else:
+                Fm = [[1 - 2 * log[k * nt + i] for i in range(nt)] for k in range(nr)]
+                v = [1 for x in log[nr * nt:]]     # BPSK: "by default, symbols are chosen for all users as 1" (the only amplitude)
+                yv = [sum(Fm[k][i] * v[i] for i in range(nt)) for k in range(nr)]
+                for s in itertools.product((-1, 1), repeat=nt):
+                    want = sum((yv[k] - sum(Fm[k][i] * s[i] for i in range(nt))) ** 2 for k in range(nr))
+                    got = energy(c, dict(enumerate(s)))
+                    if got != want or got < 0:
+                        bad = True
+                        ctx.fail('property', site, 'BPSK, binary real channel: energy vs ||F v - F s||^2', f'{call}: channel {Fm} symbols {v}: at {s} energy {got}, expected {want}', repro=src)
+                        break
+            lines.append(f"mimob {nr} {nt} {','.join(str(int(x)) for x in log) or '-'}")
+            checks.append((site + ' vs Gen.mimoBinary (draws recorded)', 'channel and symbols drawn', 'ok ' + canon_bqm(b), src, bad))
+
+
+def comp_cases(ctx, r, lines, checks):
+    """coordinated_multipoint on small lattices, BPSK, binary real channel, no noise: energy == ||F·1 - F·s||^2 with
+    F = (drawn ±1) * attenuation, attenuation 1 for a station's own and its neighbours' transmitters"""
+    import networkx as nx
+    from dimod.generators.wireless import coordinated_multipoint
+    site = 'generators.coordinated_multipoint'
+    pre = HDR + 'import networkx as nx\nfrom dimod.generators.wireless import coordinated_multipoint\n'
+    for rep in range(ctx.scale(16, 300)):
+        n = r.randint(1, 4)
+        edges = [e for e in itertools.combinations(range(n), 2) if r.random() < .6]
+        per_node = r.random() < .5
+        seed = r.choice([0, 1, r.randrange(2 ** 31)])
+        g = nx.Graph(); g.add_nodes_from(range(n)); g.add_edges_from(edges)
+        gsrc = f'g = nx.Graph(); g.add_nodes_from(range({n})); g.add_edges_from({edges!r})\n'
+        if per_node:
+            ntx = {v: r.randint(1, 2) for v in range(n)}; nrx = {v: r.randint(1, 2) for v in range(n)}
+            if sum(ntx.values()) > 6:
+                ntx = {v: 1 for v in range(n)}
+            nx.set_node_attributes(g, values=ntx, name='num_transmitters'); nx.set_node_attributes(g, values=nrx, name='num_receivers')
+            gsrc += f'nx.set_node_attributes(g, values={ntx!r}, name="num_transmitters"); nx.set_node_attributes(g, values={nrx!r}, name="num_receivers")\n'
+        else:
+            ntx = {v: 1 for v in range(n)}; nrx = {v: 1 for v in range(n)}
+        # attenuation from the documented geometry: receiver of station a hears the transmitters of a and of a's neighbours
+        tx_of = [v for v in range(n) for _ in range(ntx[v])]; rx_of = [v for v in range(n) for _ in range(nrx[v])]
+        A = [[1 if (a == b or g.has_edge(a, b)) else 0 for b in tx_of] for a in rx_of]
+        nr_, nt_ = len(rx_of), len(tx_of)
+        call = 'coordinated_multipoint(g, "BPSK", F_distribution=("binary", "real"), seed=%d)' % seed
+        with warnings.catch_warnings():
+            warnings.simplefilter('ignore')
+            with recording() as rec:
+                b = coordinated_multipoint(g, 'BPSK', F_distribution=('binary', 'real'), seed=seed)
+            log = rec.stream()
+        ctx.tick('comp' + (':per-node' if per_node else ':uniform')); ctx.case(('comp', gsrc, seed), nontrivial=True, sample=dict(call=gsrc + call))
+        src = pre + gsrc + f'b = {call}\nassert dimod.ExactSolver().sample(b).first.energy == 0 and b.energy({{v: 1 for v in b.variables}}) == 0\n'
+        bad = False
+        c = coef(b)
+        if len(log) != nr_ * nt_ + nt_ or any(x not in (0, 1) for x in log[:nr_ * nt_]) or any(log[nr_ * nt_:]) or b.vartype is not dimod.SPIN or list(b.variables) != list(range(nt_)):
+            bad = True
+            ctx.fail('property', site, 'draws / variables', f'{gsrc}{call}: recorded draws {log!r}, variables {list(b.variables)!r}, expected {nr_} receivers x {nt_} transmitters', repro=src)
+        else:
+            Fm = [[(1 - 2 * log[k * nt_ + i]) * A[k][i] for i in range(nt_)] for k in range(nr_)]
+            for s_ in itertools.product((-1, 1), repeat=nt_):
+                want = sum((sum(Fm[k][i] * (1 - s_[i]) for i in range(nt_))) ** 2 for k in range(nr_))
+                got = energy(c, dict(enumerate(s_)))
+                if got != want:
+                    bad = True
+                    ctx.fail('property', site, 'BPSK, binary real channel: energy vs ||F v - F s||^2', f'{gsrc}{call}: channel {Fm}: at {s_} energy {got}, expected {want}', repro=src)
+                    break
+        lines.append(f"comp {nr_} {nt_} {';'.join(','.join(map(str, row)) for row in A)} {','.join(str(int(x)) for x in log) or '-'}")
+        checks.append((site + ' vs Gen.compBinary (draws recorded)', 'attenuated channel', 'ok ' + canon_bqm(b), src, bad))
+
+
+def qpsk_cases(ctx, r, lines, checks):
+    """mimo('QPSK', y, F): "bits are encoded as a real vector concatenated with an imaginary vector": 2·nt spin variables,
+    energy == ||y - F (p + i q)||^2 with p = s[:nt], q = s[nt:]; real-valued data included (imaginary parts all 0)"""
+    from dimod.generators.wireless import mimo
+    site = 'generators.mimo'
+    pre = HDR + 'from dimod.generators.wireless import mimo\n'
+    for rep in range(ctx.scale(30, 500)):
+        nt = r.randint(1, 3); nr = r.randint(1, 3)
+        kind = r.choice(['complex', 'complex', 'real F', 'real y and F', 'y = F v, real F'])
+        z = lambda: F(r.randint(-6, 6), r.choice([1, 1, 2]))   # noqa: E731
+        Fr = [[z() for _ in range(nt)] for _ in range(nr)]
+        Fi = [[z() if kind == 'complex' else F(0) for _ in range(nt)] for _ in range(nr)]
+        if kind == 'y = F v, real F':
+            # a noise-free signal of QPSK symbols ±1±i through a ±1 channel: y is real whenever the imaginary parts cancel
+            Fr = [[F(r.choice([-1, 1])) for _ in range(nt)] for _ in range(nr)]
+            p0 = [r.choice([-1, 1]) for _ in range(nt)]; q0 = [r.choice([-1, 1]) for _ in range(nt)]
+            yr = [sum(Fr[k][i] * p0[i] for i in range(nt)) for k in range(nr)]; yi = [sum(Fr[k][i] * q0[i] for i in range(nt)) for k in range(nr)]
+        else:
+            yr = [z() for _ in range(nr)]; yi = [z() if kind != 'real y and F' else F(0) for _ in range(nr)]
+        cplx = lambda a, b: complex(float(a), float(b))   # noqa: E731
+        ysrc = f'np.array({[cplx(a, b) for a, b in zip(yr, yi)]!r})'
+        Fsrc = f'np.array({[[cplx(a, b) for a, b in zip(ra, rb)] for ra, rb in zip(Fr, Fi)]!r})'
+        call = f'mimo("QPSK", {ysrc}, {Fsrc})'
+        with warnings.catch_warnings():
+            warnings.simplefilter('ignore')
+            b = eval(call, {'mimo': mimo, 'np': np})
+        # F^dagger y and F^dagger F real (e.g. real-valued data, or a noise-free signal whose imaginary parts cancel)
+        real_data = (all(sum(Fr[k][i] * yi[k] - Fi[k][i] * yr[k] for k in range(nr)) == 0 for i in range(nt))
+                     and all(sum(Fr[k][i] * Fi[k][j] - Fi[k][i] * Fr[k][j] for k in range(nr)) == 0 for i in range(nt) for j in range(nt)))
+        cls = 'QPSK, F^H y and F^H F real' if real_data else 'QPSK: energy vs ||y - F v||^2'
+        ctx.tick('mimo:qpsk:' + kind + (':real-form' if real_data else '')); ctx.case(('qpsk', call), nontrivial=True, sample=dict(call=call))
+        src = (pre + f'b = {call}\nnt = {nt}\nyr, yi, Fr, Fi = {[str(v) for v in yr]!r}, {[str(v) for v in yi]!r}, {[[str(v) for v in row] for row in Fr]!r}, {[[str(v) for v in row] for row in Fi]!r}\n'
+               'assert list(b.variables) == list(range(2 * nt)), ("QPSK: the real parts of the symbols followed by the imaginary parts", list(b.variables))\n'
+               'c = coef(b)\n'
+               'for s in itertools.product((-1, 1), repeat=2 * nt):\n'
+               '    p, q = s[:nt], s[nt:]\n'
+               '    re = [F(yr[k]) - sum(F(Fr[k][i]) * p[i] - F(Fi[k][i]) * q[i] for i in range(nt)) for k in range(len(yr))]\n'
+               '    im = [F(yi[k]) - sum(F(Fi[k][i]) * p[i] + F(Fr[k][i]) * q[i] for i in range(nt)) for k in range(len(yr))]\n'
+               '    assert en(c, dict(enumerate(s))) == sum(a * a for a in re) + sum(a * a for a in im), s\n')
+        bad = False
+        c = coef(b)
+        if b.vartype is not dimod.SPIN or list(b.variables) != list(range(2 * nt)):
+            bad = True
+            ctx.fail('property', site, cls, f'{call}: variables {list(b.variables)!r}; documented: the real parts of the {nt} symbols followed by their imaginary parts ({2 * nt} variables)', repro=src)
+        for s_ in itertools.product((-1, 1), repeat=2 * nt) if not bad else ():
+            p_, q_ = s_[:nt], s_[nt:]
+            re = [yr[k] - sum(Fr[k][i] * p_[i] - Fi[k][i] * q_[i] for i in range(nt)) for k in range(nr)]
+            im = [yi[k] - sum(Fi[k][i] * p_[i] + Fr[k][i] * q_[i] for i in range(nt)) for k in range(nr)]
+            want = sum(a * a for a in re) + sum(a * a for a in im)
+            got = energy(c, dict(enumerate(s_)))
+            if got != want:
+                bad = True
+                ctx.fail('property', site, cls, f'{call}: at p={p_} q={q_} energy {got}, ||y - F (p + iq)||^2 = {want}', repro=src)
+                break
+        mt = lambda M: ';'.join(','.join(map(rat, row)) for row in M)   # noqa: E731
+        lines.append(f"qpsk {nt} {','.join(map(rat, yr))} {','.join(map(rat, yi))} {mt(Fr)} {mt(Fi)}")
+        checks.append((site + ' vs Gen.mimoQpsk', cls, 'ok ' + canon_bqm(b), src, False))     # the model follows the code in both branches
+
+
+# ------------------------------------------------------------------------------------ argument forms: list vs every other documented form
+
+def _forms(kind, value, r):
+    """the other forms of an argument documented as Iterable / Collection / Sequence / ArrayLike / Mapping: a list of
+    (class of the form, source text of an expression over the name `v` holding the list form).  Every expression builds a
+    FRESH object, so one-shot iterators are new for every call."""
+    out = []
+    if kind == 'iterable':           # typing.Iterable: anything that can be iterated ONCE
+        out += [('one-shot iterator', 'iter(v)'), ('one-shot iterator', '(x for x in v)'), ('one-shot iterator', 'map(lambda x: x, v)'),
+                ('tuple', 'tuple(v)')]
+        if value and all(isinstance(x, tuple) and len(x) == 2 for x in value):
+            out += [('one-shot iterator', 'zip([a for a, _ in v], [b for _, b in v])')]
+            try:
+                if len({x[0] for x in value}) == len(value):
+                    out += [('dict view', 'dict(v).items()')]
+            except TypeError:
+                pass
+        elif value and len(set(map(repr, value))) == len(value):
+            out += [('dict view', 'dict.fromkeys(v).keys()')]
+    elif kind == 'collection':       # sized, iterable, container — re-iterable
+        out += [('tuple', 'tuple(v)')]
+        if len(set(map(repr, value))) == len(value):
+            out += [('dict view', 'dict.fromkeys(v).keys()')]
+        if value == list(range(len(value))):
+            out += [('range', 'range(len(v))')]
+    elif kind == 'sequence':
+        out += [('tuple', 'tuple(v)')]
+        if value == list(range(len(value))):
+            out += [('range', 'range(len(v))')]
+        if value and all(isinstance(x, str) and len(x) == 1 for x in value):
+            out += [('str', '"".join(v)')]
+    elif kind == 'array':
+        out += [('tuple', 'tuple(tuple(x) if isinstance(x, list) else x for x in v)'), ('numpy array', 'np.array(v)'),
+                ('numpy array', 'np.array(v, dtype=np.float32)')]
+        flat = [y for x in value for y in (x if isinstance(x, list) else [x])]
+        if all(float(y).is_integer() for y in flat):
+            out += [('numpy array', 'np.array(v, dtype=np.int64)'), ('numpy array', 'np.array(v, dtype=np.int8)')]
+    elif kind == 'mapping':
+        out += [('Mapping that is not a dict', '__import__("types").MappingProxyType(dict(v))'),
+                ('Mapping that is not a dict', '__import__("collections").ChainMap({}, dict(v))')]
+    return out
+
+
+def _same_model(a, b):
+    if isinstance(a, dimod.ConstrainedQuadraticModel) or isinstance(b, dimod.ConstrainedQuadraticModel):
+        return type(a) is type(b) and list(a.variables) == list(b.variables) and a.is_equal(b)
+    return same_bqm(a, b)
+
+
+def forms_cases(ctx, r):
+    """every generator argument documented as an iterable / collection / sequence / array-like / mapping, fed in each other
+    documented form (one-shot iterators, tuples, dict views, ranges, str, numpy arrays, non-dict mappings): the returned
+    model must be the one of the list form (which the other case generators check against the documented relation)"""
+    from dimod.generators.bpsp import binary_paint_shop_problem
+    from dimod.generators.satisfiability import random_kmcsat
+    from dimod.generators.chimera import chimera_anticluster
+    env0 = {'G': G, 'np': np, 'dimod': dimod, 'binary_paint_shop_problem': binary_paint_shop_problem, 'random_kmcsat': random_kmcsat,
+            'chimera_anticluster': chimera_anticluster}
+    imports = ('from dimod.generators.bpsp import binary_paint_shop_problem\nfrom dimod.generators.satisfiability import random_kmcsat\n'
+               'from dimod.generators.chimera import chimera_anticluster\n')
+
+    def run_call(call, args, subst):
+        """evaluate `call` (an expression over the argument names) with each name bound to its list form, except those in
+        `subst` (name -> form expression over v)"""
+        env = dict(env0)
+        for name, val in args.items():
+            env[name] = eval(subst[name], {'v': val, 'np': np}) if name in subst else val
+        with warnings.catch_warnings():
+            warnings.simplefilter('ignore')
+            try:
+                return eval(call, env), None
+            except (ValueError, TypeError, RuntimeError, KeyError, IndexError, AttributeError) as e:
+                return None, e
+
+    def one(name, call, args, kinds):
+        """args: name -> list form; kinds: name -> kind of the documented type (only these are varied)"""
+        site = f'generators.{name}'
+        ref, ref_err = run_call(call, args, {})
+        pool = [(an, cls, expr) for an, kind in kinds.items() for cls, expr in _forms(kind, args[an], r)]
+        if not pool:
+            return
+        # every single-argument substitution of a one-shot form, and a random sample of the rest / of combinations
+        chosen = [[t] for t in pool if t[1] == 'one-shot iterator']
+        rest = [t for t in pool if t[1] != 'one-shot iterator']
+        r.shuffle(rest)
+        chosen += [[t] for t in rest[:ctx.scale(3, 12)]]
+        if len(kinds) > 1:
+            for _ in range(ctx.scale(2, 6)):
+                combo = []
+                for an in kinds:
+                    opts = [t for t in pool if t[0] == an]
+                    if opts and r.random() < .7:
+                        combo.append(r.choice(opts))
+                if len(combo) > 1:
+                    chosen.append(combo)
+        for combo in chosen:
+            subst = {an: expr for an, _, expr in combo}
+            got, err = run_call(call, args, subst)
+            cls = '; '.join(f'{an} given as {c}' for an, c, _ in sorted(set((an, c, '') for an, c, _ in combo)))
+            ctx.tick(f'forms:{name}:' + '+'.join(sorted(set(c for _, c, _ in combo))))
+            ctx.case(('forms', name, call, repr(args), repr(subst)), nontrivial=ref is not None, sample=dict(call=call, forms=subst))
+            ok = (got is None and ref is None) if (got is None or ref is None) else _same_model(ref, got)
+            if not ok:
+                binds = ''.join(f'{an}_list = {val!r}\n' for an, val in args.items())
+                def bind(use_forms):
+                    return ''.join(f'v = {an}_list; {an} = ' + (subst[an] if use_forms and an in subst else 'v') + '\n' for an in args)
+                repro = (HDR + imports + binds + bind(False) + f'a = {call}\n' + bind(True) + f'b = {call}\n'
+                         + 'same = (a.is_equal(b) if isinstance(a, dimod.ConstrainedQuadraticModel) else (a.vartype is b.vartype and list(a.variables) == list(b.variables) and coef(a) == coef(b)))\n'
+                         + f'assert same, "the model depends on the form of the argument(s) {sorted(subst)}"\n')
+                what = (f'{call} with {args!r}: ' + ', '.join(f'{an} = {expr}' for an, expr in subst.items()) + ': '
+                        + (f'raises {type(err).__name__}: {err}' if got is None else f'accepted although the list form raises {type(ref_err).__name__}' if ref is None
+                           else f'returns {coef(got) if not isinstance(got, dimod.ConstrainedQuadraticModel) else "a different CQM"}, the list form {coef(ref) if not isinstance(ref, dimod.ConstrainedQuadraticModel) else ""}'))
+                ctx.fail('property', site, cls, what[:1500], repro=repro)
+
+    pool = ['a', 'b', 'c', 'd', 0, 1, 2, 3, ('t', 1)]
+    for rep in range(ctx.scale(10, 150)):
+        n = r.randint(2, 5)
+        nodes = r.sample(pool, n)
+        edges = [(u, v) if r.random() < .5 else (v, u) for u, v in itertools.combinations(nodes, 2) if r.random() < .6] or [(nodes[0], nodes[1])]
+        extra = [v for v in pool if v not in nodes][:1]
+        some_nodes = [v for v in nodes + extra if r.random() < .8]
+        weighted = [(v, r.randint(1, 16) / 8) for v in nodes + extra if r.random() < .7]
+        one('independent_set', 'G.independent_set(edges, nodes)', dict(edges=edges, nodes=some_nodes), dict(edges='iterable', nodes='iterable'))
+        one('maximum_independent_set', 'G.maximum_independent_set(edges, nodes, strength=2.5)', dict(edges=edges, nodes=some_nodes), dict(edges='iterable', nodes='iterable'))
+        one('maximum_weight_independent_set', 'G.maximum_weight_independent_set(edges, nodes)', dict(edges=edges, nodes=weighted), dict(edges='iterable', nodes='iterable'))
+        one('maximum_weight_independent_set', 'G.maximum_weight_independent_set(edges, nodes, strength=3.0, strength_multiplier=1.5)', dict(edges=edges, nodes=weighted), dict(edges='iterable', nodes='iterable'))
+        labels = list(range(n)) if r.random() < .4 else nodes
+        k = r.randint(0, n)
+        vt = r.choice(['BINARY', 'SPIN'])
+        one('combinations', f'G.combinations(n, {k}, strength=1.5, vartype={vt!r})', dict(n=labels), dict(n='collection'))
+        # array-likes
+        ni = r.randint(1, 3)
+        values = [r.randint(0, 40) / 4 for _ in range(ni)]; weights = [r.randint(1, 24) / 4 for _ in range(ni)]
+        if r.random() < .5:
+            values = [float(int(x)) for x in values]; weights = [float(max(1, int(x))) for x in weights]
+        caps = [r.randint(1, 32) / 4 for _ in range(r.randint(1, 2))]
+        P = [[0.0] * ni for _ in range(ni)]
+        for i in range(ni):
+            for j in range(i + 1, ni):
+                P[i][j] = P[j][i] = float(r.randint(0, 6))
+        one('knapsack', 'G.knapsack(values, weights, 4.5)', dict(values=values, weights=weights), dict(values='array', weights='array'))
+        one('multi_knapsack', 'G.multi_knapsack(values, weights, capacities)', dict(values=values, weights=weights, capacities=caps), dict(values='array', weights='array', capacities='array'))
+        one('bin_packing', 'G.bin_packing(weights, 6.0)', dict(weights=weights), dict(weights='array'))
+        one('quadratic_knapsack', 'G.quadratic_knapsack(values, weights, profits, 4.5)', dict(values=values, weights=weights, profits=P), dict(values='array', weights='array', profits='array'))
+        one('quadratic_multi_knapsack', 'G.quadratic_multi_knapsack(values, weights, profits, capacities)', dict(values=values, weights=weights, profits=P, capacities=caps),
+            dict(values='array', weights='array', profits='array', capacities='array'))
+        nq = r.randint(1, 3)
+        D = [[float(r.randint(0, 7)) if i != j else 0.0 for j in range(nq)] for i in range(nq)]
+        Fl = [[float(r.randint(0, 7)) if i != j else 0.0 for j in range(nq)] for i in range(nq)]
+        one('quadratic_assignment', 'G.quadratic_assignment(distance_matrix, flow_matrix)', dict(distance_matrix=D, flow_matrix=Fl), dict(distance_matrix='array', flow_matrix='array'))
+        # sequences
+        cars = r.sample(['a', 'b', 'c', 'd'], r.randint(1, 4)) if r.random() < .6 else list(range(r.randint(1, 4)))
+        seq = cars * 2; r.shuffle(seq)
+        one('binary_paint_shop_problem', 'binary_paint_shop_problem(car_sequence)', dict(car_sequence=seq), dict(car_sequence='sequence'))
+        seed = r.randrange(2 ** 31)
+        vs = r.choice([list(range(n + 1)), r.sample(['a', 'b', 'c', 'd', 'e', 'f'], n + 1)])
+        one('random_kmcsat', f'random_kmcsat(variables, 3, {r.randint(1, 4)}, seed={seed})', dict(variables=vs), dict(variables='sequence'))
+        one('random_nae3sat', f'G.random_nae3sat(variables, {r.randint(1, 4)}, seed={seed})', dict(variables=vs), dict(variables='sequence'))
+        one('gnm_random_bqm', f'G.gnm_random_bqm(variables, {r.randint(0, 6)}, "SPIN", random_state={seed})', dict(variables=vs), dict(variables='sequence'))
+        one('gnp_random_bqm', f'G.gnp_random_bqm(n, 0.5, "BINARY", random_state={seed})', dict(n=vs), dict(n='sequence'))
+        # graphs given as (nodes, edges): both are Collections
+        gnodes = list(range(n)) if r.random() < .5 else nodes
+        gedges = [e for e in itertools.combinations(gnodes, 2) if r.random() < .7] or [(gnodes[0], gnodes[1])]
+        for gname, gcall in (('uniform', f'G.uniform((gnodes, gedges), "SPIN", low=-2.0, high=2.0, seed={seed})'), ('randint', f'G.randint((gnodes, gedges), "BINARY", low=-3, high=3, seed={seed})'),
+                             ('ran_r', f'G.ran_r(3, (gnodes, gedges), seed={seed})'), ('power_r', f'G.power_r(3, (gnodes, gedges), seed={seed})'),
+                             ('doped', f'G.doped(0.5, (gnodes, gedges), seed={seed})'),
+                             ('frustrated_loop', f'G.frustrated_loop((gnodes, gedges), 2, seed={seed})')):
+            one(gname, gcall, dict(gnodes=gnodes, gedges=gedges), dict(gnodes='collection', gedges='collection'))
+        planted = [(v, r.choice([-1, 1])) for v in gnodes]
+        one('frustrated_loop', f'G.frustrated_loop((gnodes, gedges), 2, seed={seed}, planted_solution=dict(planted) if isinstance(planted, list) else planted)',
+            dict(gnodes=gnodes, gedges=gedges, planted=planted), dict(planted='mapping'))
+        if rep % 3 == 0:
+            tile, inter = chimera_lattice(1, 2, 2)
+            sn = [v for v in range(8) if r.random() < .8]
+            se = [tuple(sorted(e)) for e in sorted(map(sorted, tile | inter)) if e[0] in sn and e[1] in sn and r.random() < .8]
+            one('chimera_anticluster', f'chimera_anticluster(1, 2, 2, subgraph=(sn, se), seed={seed})', dict(sn=sn, se=se), dict(sn='collection', se='collection'))
+
+
+QAM_BITS = {'16QAM': 4, '64QAM': 6, '256QAM': 8}       # log2 of the constellation size = bits per transmitted symbol
+
+
+def qam_cases(ctx, r, lines, checks):
+    """mimo('16QAM' | '64QAM' | '256QAM', y, F): log2(constellation) spin variables per transmitter; with the documented layout
+    (per amplitude bit: the real parts of all symbols, then the imaginary parts; lower precision first) the symbol of
+    transmitter i is sum_a 2^a (p_a[i] + i q_a[i]) and the energy is ||y - F v||^2"""
+    from dimod.generators.wireless import mimo
+    site = 'generators.mimo'
+    pre = HDR + 'from dimod.generators.wireless import mimo\n'
+    for rep in range(ctx.scale(8, 120)):
+        mod = r.choice(['16QAM', '16QAM', '64QAM', '256QAM'])
+        na = QAM_BITS[mod] // 2
+        nt = 2 if (mod == '16QAM' and r.random() < .5) else 1
+        nr = r.randint(1, 2)
+        z = lambda: F(r.randint(-4, 4), r.choice([1, 1, 2]))   # noqa: E731
+        Fr = [[z() for _ in range(nt)] for _ in range(nr)]; Fi = [[z() for _ in range(nt)] for _ in range(nr)]
+        yr = [z() for _ in range(nr)]; yi = [z() for _ in range(nr)]
+        if all(sum(Fr[k][i] * yi[k] - Fi[k][i] * yr[k] for k in range(nr)) == 0 for i in range(nt)) and \
+           all(sum(Fr[k][i] * Fi[k][j] - Fi[k][i] * Fr[k][j] for k in range(nr)) == 0 for i in range(nt) for j in range(nt)):
+            continue            # the data-dependent real form: known finding D65, covered by qpsk_cases
+        cplx = lambda a, b: complex(float(a), float(b))   # noqa: E731
+        call = f'mimo({mod!r}, np.array({[cplx(a, b) for a, b in zip(yr, yi)]!r}), np.array({[[cplx(a, b) for a, b in zip(ra, rb)] for ra, rb in zip(Fr, Fi)]!r}))'
+        with warnings.catch_warnings():
+            warnings.simplefilter('ignore')
+            b = eval(call, {'mimo': mimo, 'np': np})
+        ctx.tick(f'mimo:{mod}'); ctx.case(('qam', call), nontrivial=True, sample=dict(call=call))
+        nv = QAM_BITS[mod] * nt
+        src = (pre + f'b = {call}\nnt, na = {nt}, {na}\nyr, yi, Fr, Fi = {[str(v) for v in yr]!r}, {[str(v) for v in yi]!r}, {[[str(v) for v in row] for row in Fr]!r}, {[[str(v) for v in row] for row in Fi]!r}\n'
+               f'assert b.num_variables == {nv}, ("{mod}: {QAM_BITS[mod]} bits per transmitter", b.num_variables)\n'
+               'c = coef(b)\n'
+               'for s in itertools.product((-1, 1), repeat=b.num_variables):\n'
+               '    p = [sum(2**a * s[a * 2 * nt + i] for a in range(na)) for i in range(nt)]; q = [sum(2**a * s[a * 2 * nt + nt + i] for a in range(na)) for i in range(nt)]\n'
+               '    re = [F(yr[k]) - sum(F(Fr[k][i]) * p[i] - F(Fi[k][i]) * q[i] for i in range(nt)) for k in range(len(yr))]\n'
+               '    im = [F(yi[k]) - sum(F(Fi[k][i]) * p[i] + F(Fr[k][i]) * q[i] for i in range(nt)) for k in range(len(yr))]\n'
+               '    assert en(c, dict(enumerate(s))) == sum(a * a for a in re) + sum(a * a for a in im), s\n')
+        bad = False
+        c = coef(b)
+        if b.vartype is not dimod.SPIN or list(b.variables) != list(range(nv)):
+            bad = True
+            ctx.fail('property', site, f'{mod}: number of variables', f'{call}: {b.num_variables} variables for {nt} transmitter(s); a {mod} symbol carries {QAM_BITS[mod]} bits', repro=src)
+        for s_ in itertools.product((-1, 1), repeat=nv) if not bad else ():
+            p_ = [sum(2 ** a * s_[a * 2 * nt + i] for a in range(na)) for i in range(nt)]
+            q_ = [sum(2 ** a * s_[a * 2 * nt + nt + i] for a in range(na)) for i in range(nt)]
+            re = [yr[k] - sum(Fr[k][i] * p_[i] - Fi[k][i] * q_[i] for i in range(nt)) for k in range(nr)]
+            im = [yi[k] - sum(Fi[k][i] * p_[i] + Fr[k][i] * q_[i] for i in range(nt)) for k in range(nr)]
+            want = sum(a * a for a in re) + sum(a * a for a in im)
+            got = energy(c, dict(enumerate(s_)))
+            if got != want:
+                bad = True
+                ctx.fail('property', site, f'{mod}: energy vs ||y - F v||^2', f'{call}: at {s_} (symbols {list(zip(p_, q_))}) energy {got}, expected {want}', repro=src)
+                break
+        mt = lambda M: ';'.join(','.join(map(rat, row)) for row in M)   # noqa: E731
+        lines.append(f"qam {na} {nt} {','.join(map(rat, yr))} {','.join(map(rat, yi))} {mt(Fr)} {mt(Fi)}")
+        checks.append((site + ' vs Gen.mimoQam', mod, 'ok ' + canon_bqm(b), src, bad))
+
+
 def run(ctx):
     r = ctx.rng
     ctx.rule = ('every gate generator with random labels (ints, strings, nested tuples) / strengths, both vartypes, every row of the truth table x every auxiliary value; '
@@ -1187,6 +1904,14 @@ def run(ctx):
     msq_cases(ctx, r, lines, checks)
     random_cases(ctx, r)
     random_corr(ctx, r, lines, checks)
+    ac_cases(ctx, r, lines, checks)
+    fl_cases(ctx, r, lines, checks)
+    chimera_cases(ctx, r, lines, checks)
+    mimo_cases(ctx, r, lines, checks)
+    comp_cases(ctx, r, lines, checks)
+    qpsk_cases(ctx, r, lines, checks)
+    qam_cases(ctx, r, lines, checks)
+    forms_cases(ctx, r)
     ctx.notes.append('random generators: the NumPy generator is a contract (its draws are recorded and handed to the models as an explicit stream); placement of the draws, index maps, pair selection, capacities are modelled (Rnd.*) and proved; range / reproducibility over seeds stay validated; '
                      'multiplication circuit: "energy 0 (minimised over the internal wires) iff p = a*b, else >= 1" is proved for all n, m >= 2 (multiplication_circuit_zero_iff_product); the enumeration up to 3x3 stays as a test')
     got = run_driver('gendriver', lines)
